@@ -166,6 +166,14 @@ macro_rules! family {
                 }
             }
             fn read(&self) -> Val {
+                let tsz = match $tag {
+                    "u8" => 1,
+                    "u16" => 2,
+                    _ => 4,
+                };
+                if !enum_tag_ok(self, tsz, 3) {
+                    return Val::V(0, vec![]);
+                }
                 match self.as_ref() {
                     $ERef::N => Val::V(0, vec![]),
                     $ERef::P(a, b, c) => Val::V(1, vec![a.lrd(), b.lrd(), c.lrd()]),
@@ -390,6 +398,9 @@ impl ZooMsg for MidDefault {
         }
     }
     fn read(&self) -> Val {
+        if !enum_tag_ok(self, 1, 4) {
+            return Val::V(0, vec![]);
+        }
         match self.as_ref() {
             MidDefaultRef::Reset => Val::V(0, vec![]),
             MidDefaultRef::Idle => Val::V(1, vec![]),
@@ -436,6 +447,9 @@ impl ZooMsg for LastUnit {
         }
     }
     fn read(&self) -> Val {
+        if !enum_tag_ok(self, 1, 3) {
+            return Val::V(0, vec![]);
+        }
         match self.as_ref() {
             LastUnitRef::Data(a, v) => Val::V(0, vec![Val::I(*a as i128), rd_vec(v, |x| Val::I(*x as i128))]),
             LastUnitRef::Pair(a, b) => Val::V(1, vec![Val::I(*a as i128), Val::I(*b as i128)]),
@@ -462,7 +476,6 @@ pub struct PortAll {
     pub h: be::F32,
     pub i: le::F64,
     pub j: be::F64,
-    pub k: be::U16,
     pub l: le::U64,
     pub t: FlatVec<be::I16, be::U16>,
 }
@@ -480,7 +493,6 @@ impl ZooMsg for PortAll {
             Val::F(g.f32bits()),
             Val::F(g.f64bits()),
             Val::F(g.f64bits()),
-            Val::I(g.int(16, false)),
             Val::I(g.int(64, false)),
         ];
         let n = g.len();
@@ -501,9 +513,8 @@ impl ZooMsg for PortAll {
                 h: be::F32::from(f32::from_bits(v.field(7).bits() as u32)),
                 i: le::F64::from(f64::from_bits(v.field(8).bits())),
                 j: be::F64::from(f64::from_bits(v.field(9).bits())),
-                k: be::U16::from(v.field(10).int() as u16),
-                l: le::U64::from(v.field(11).int() as u64),
-                t: flatty::vec::FromIterator(v.field(12).list().iter().map(|x| be::I16::from(x.int() as i16))),
+                l: le::U64::from(v.field(10).int() as u64),
+                t: flatty::vec::FromIterator(v.field(11).list().iter().map(|x| be::I16::from(x.int() as i16))),
             },
         )
     }
@@ -519,7 +530,6 @@ impl ZooMsg for PortAll {
             Val::F(f32::from(self.h).to_bits() as u64),
             Val::F(f64::from(self.i).to_bits()),
             Val::F(f64::from(self.j).to_bits()),
-            Val::I(u16::from(self.k) as i128),
             Val::I(u64::from(self.l) as i128),
             rd_vec(&self.t, |x| Val::I(i16::from(*x) as i128)),
         ])
@@ -626,6 +636,9 @@ impl ZooMsg for EnumInEnum {
         }
     }
     fn read(&self) -> Val {
+        if !enum_tag_ok(self, 1, 4) {
+            return Val::V(0, vec![]);
+        }
         match self.as_ref() {
             EnumInEnumRef::Z => Val::V(0, vec![]),
             EnumInEnumRef::W(a, e) => Val::V(1, vec![Val::I(*a as i128), e.read()]),
